@@ -1,6 +1,6 @@
 (* Evaluation of the C12 model on harness-written cases (correspondence check). *)
 From Coq Require Import List NArith Bool.
-From V.C12 Require Import Model.
+From V.C12 Require Import Model Table.
 Import ListNotations.
 Local Open Scope N_scope.
 
@@ -37,7 +37,7 @@ Definition obs (addrs keys hashes : list N) (d : data) : list N :=
   flat_map (fun a =>
       [b2n (exists_of d a); nonce_of d a; code_of d a; b2n (suicided_of d a); bal d a; b2n (acl d a)]
       ++ map (fun k => state_of d a k) keys ++ map (fun k => tstor d a k) keys) addrs
-  ++ [refund d; logsize d]
+  ++ [refund d]
   ++ flat_map (fun h => N.of_nat (length (logs d h))
                         :: flat_map (fun l => [l_addr l; l_topic l; l_tx l; l_txindex l; l_index l]) (logs d h)) hashes.
 
@@ -106,5 +106,39 @@ Definition table_bad (t : list oprow) : list N :=
   map (fun r => fst (fst (fst r))) (filter (fun r => negb (row_ok r)) t).
 
 (* the case records the opcodes expected to violate the obligation today; any other set is a mismatch *)
+Definition row_eqb (r1 r2 : oprow) : bool :=
+  let '(o1, w1, g1, m1) := r1 in let '(o2, w2, g2, m2) := r2 in
+  (o1 =? o2) && Bool.eqb w1 w2 && Bool.eqb g1 g2 && Bool.eqb m1 m2.
+
+Fixpoint rows_eqb (l1 l2 : list oprow) : bool :=
+  match l1, l2 with
+  | [], [] => true
+  | a :: r1, b :: r2 => row_eqb a b && rows_eqb r1 r2
+  | _, _ => false
+  end.
+
+(* the rows extracted from the current sources must be the rows of Table.v (about which the table theorems
+   speak), and the opcodes the harness reported must be exactly the rows failing the obligation *)
 Definition check_table (c : list oprow * list N) : bool :=
-  list_eqb (table_bad (fst c)) (snd c).
+  list_eqb (table_bad (fst c)) (snd c) && rows_eqb (fst c) today_table.
+
+(* first differing position between two flat observations *)
+Fixpoint first_diff (i : N) (l1 l2 : list N) : option (N * N * N) :=
+  match l1, l2 with
+  | [], [] => None
+  | a :: r1, b :: r2 => if a =? b then first_diff (i + 1) r1 r2 else Some (i, a, b)
+  | a :: _, [] => Some (i, a, 77777)
+  | [], b :: _ => Some (i, 77777, b)
+  end.
+
+Fixpoint diag_txs (c : tcase) (l : list (tx * tobs)) (s : state) : list (option (N * N * N) * (N * N) * option (N * N * N) * option (N * N * N)) :=
+  match l with
+  | [] => []
+  | (t, (o_prep, o_out, o_logs, o_post)) :: r =>
+      let s1 := with_oracle (prepare (t_hash t) (t_index t) s) (t_oracle t) in
+      let '(o, lg, s2) := exec_top (c_progs c) fuel0 t s1 in
+      (first_diff 0 (obs (c_addrs c) (c_keys c) (c_hashes c) (dat s1)) o_prep, (outcome_code o, o_out),
+       first_diff 0 (flat_logs lg) (flat_pairs o_logs),
+       first_diff 0 (obs (c_addrs c) (c_keys c) (c_hashes c) (dat s2)) o_post) :: diag_txs c r s2
+  end.
+Definition diag (c : tcase) := diag_txs c (c_txs c) (init_state (c_init c)).
